@@ -125,7 +125,15 @@ def array_synonyms(ctx, r):
                         bad_, why = [1], f"{type(e).__name__}: {str(e)[:80]}"
                     if bad_:
                         dis.append(f"{cname} with {spelled} differs from {cname} with {names}: {why}"[:300])
-                        fails.append({"key": f"ctor-synonym:{cname}:{syn}", "what": dis[-1], "code": None})
+                        fails.append({"key": f"ctor-synonym:{cname}:{syn}", "what": dis[-1], "code": (
+                            "import numpy, awkward as ak, vector\nrow = %r\nspelled, names = %r, %r\n"
+                            "mk = {'vector.obj': lambda n: vector.obj(**dict(zip(n, row))), 'vector.array': lambda n: vector.array({k: numpy.array([v, v]) for k, v in zip(n, row)}),\n"
+                            "      'vector.zip': lambda n: vector.zip({k: numpy.array([v, v]) for k, v in zip(n, row)}), 'vector.Array': lambda n: vector.Array([dict(zip(n, row))] * 2)}[%r]\n"
+                            "a, b = mk(spelled), mk(names)\nassert isinstance(a, vector.Momentum), type(a).__name__\n"
+                            "for rd in ('x', 'y', 'rho', 'phi', 'z', 'theta', 'eta', 't', 'tau', 'mag'):\n"
+                            "    if hasattr(b, rd):\n        va, vb = getattr(a, rd), getattr(b, rd)\n"
+                            "        va = va.tolist() if hasattr(va, 'tolist') else va; vb = vb.tolist() if hasattr(vb, 'tolist') else vb\n"
+                            "        assert repr(va) == repr(vb), (rd, va, vb)\n" % ([float(x) for x in row], spelled, names, cname))})
     return dis[:10], {"array_synonym_checks": n}, fails[:3]
 
 
